@@ -44,7 +44,13 @@ def replay_info(enc):
     gated_vars = sorted(q for (k, q) in enc.shared_mut if k == "var" and (k, q) not in enc.protected)
     gated_maps = sorted(q for (k, q) in enc.shared_mut if k == "map" and (k, q) not in enc.protected)
     map_lines = sorted({i.line for p in enc.progs.values() if p for i in p.instrs.values() if i.op in ("loadmap", "storemap") and i.a[0] in gated_maps})
-    return {"lock_names_in_creation_order": [n for _, n in sorted(set(locks))], "gated_vars": gated_vars, "gated_maps": gated_maps, "map_lines": map_lines}
+    iter_lines = {}
+    for p in enc.progs.values():
+        for i in (p.instrs.values() if p else ()):
+            if i.op == "iternext" and i.label in enc.fe.iter_src and enc.fe.iter_src[i.label] in gated_vars:
+                iter_lines[str(i.line)] = enc.fe.iter_src[i.label]
+    return {"lock_names_in_creation_order": [n for _, n in sorted(set(locks))], "gated_vars": gated_vars, "gated_maps": gated_maps, "map_lines": map_lines,
+            "iter_lines": iter_lines}
 
 
 def witness_formula(b, name):
@@ -60,6 +66,9 @@ def witness_formula(b, name):
         return AND(ended, nobad, sc["g_maxinflight"] == bv(min(enc.W, b.width)))
     if name == "interrupted":
         return AND(ended, nobad, sc["interrupted"])
+    if name == "start_refused":
+        # (run raises the RuntimeError here, which the C06 bits would call a spurious error: only the termination bits count)
+        return AND(ended, sc["start_failed"], NOT(b.bad_any([n for n in BAD_BITS if n.startswith("c07_")] + SANITY_BITS)))
     if name == "cycle_rejected":
         return AND(ended, nobad, enc.cyclic)
     raise KeyError(name)
@@ -127,6 +136,15 @@ def run(spec):
         if r != "unsat":
             res["status"] = "unknown"
             return res
+        if enc.saw_nodelist:
+            # node lists are modelled as sets: a schedule in which one gets the same node twice (or None is iterated) is outside the
+            # model -- no verdict for this instance then (only code that builds node lists can get here; the pinned source has none)
+            r, dt, m = b.query(b.bad_any(["nodelist_misuse"]))
+            res["queries"].append({"q": "model-limit:nodelist", "K": K, "result": r, "solver_s": round(dt, 2)})
+            if r != "unsat":
+                res["status"] = "unsupported"
+                res["detail"] = "a list of nodes can hold the same node twice (lists are modelled as sets): outside the model"
+                return res
         r, dt, m = b.query(b.unfinished())
         res["queries"].append({"q": "unwinding", "K": K, "result": r, "solver_s": round(dt, 2)})
         if r == "unsat":
